@@ -14,21 +14,21 @@ if ! git -C "$WT" apply --index "$SRC/patch.diff" 2>/tmp/confirm_apply.$$; then 
 rm -f /tmp/confirm_apply.$$
 ( cd "$WT" && cmake -G Ninja -B _build -DCMAKE_BUILD_TYPE=RelWithDebInfo -DCMAKE_CXX_FLAGS=-Wno-error . >/dev/null 2>&1 && ninja -C _build >/tmp/confirm_build.$$ 2>&1 ) || { echo "RESULT build=FAILED"; tail -5 /tmp/confirm_build.$$; rm -f /tmp/confirm_build.$$; exit 1; }
 rm -f /tmp/confirm_build.$$
-python3 - "$WT" <<'EOF'
+python3 - "$WT" "/tmp/confirm_baseline.$$.txt" <<'EOF'
 import json,subprocess,sys,re
 wt=sys.argv[1]
 b=json.load(open('/root/.vp/BASELINE.json'))
 stable=sorted(set(n.split('::')[0] for n in b['stable_pass']))
-out=subprocess.run(['ctest','--test-dir',wt+'/_build','-j6','--timeout','900'],capture_output=True,text=True).stdout
+out=subprocess.run(['ctest','--test-dir',wt+'/_build','-j4','--timeout','900'],capture_output=True,text=True).stdout
 failed=set(re.findall(r'- (\S+) \(',out))&set(stable)
 still=[]
 for t in sorted(failed):   # port collisions etc.: retry serially
     r=subprocess.run(['ctest','--test-dir',wt+'/_build','-R','^'+t+'$','--timeout','900'],capture_output=True,text=True)
     if '100% tests passed' not in r.stdout: still.append(t)
 print("RESULT baseline_stable=%d failed_after_retry=%s"%(len(stable),still))
-open('/tmp/confirm_baseline.txt','w').write(','.join(still))
+open(sys.argv[2],'w').write(','.join(still))
 EOF
-FAILED="$(cat /tmp/confirm_baseline.txt)"; rm -f /tmp/confirm_baseline.txt
+FAILED="$(cat /tmp/confirm_baseline.$$.txt)"; rm -f /tmp/confirm_baseline.$$.txt
 # now the checks against /repo itself (serialised with any other user of /repo through /tmp/verif_repo.lock)
 exec 9>/tmp/verif_repo.lock; flock 9
 git -C /repo status --porcelain --untracked-files=no | grep -q . && { echo "/repo has uncommitted changes"; exit 2; }
